@@ -71,7 +71,7 @@ def same(a, b, atol=1e-6, rtol=1e-6):
     return True, ""
 
 
-def explore(make, ops, depth, atol=1e-6, rtol=1e-6, fresh=reset_memo_caches, prefixes_only_from=None):
+def explore(make, ops, depth, atol=1e-6, rtol=1e-6, fresh=reset_memo_caches, prefixes_only_from=None, mutators=()):
     """Run every sequence over `ops` of length 1..depth.  Returns a dict:
         sequences   number of sequences executed
         calls       number of operation calls (transitions)
@@ -79,6 +79,10 @@ def explore(make, ops, depth, atol=1e-6, rtol=1e-6, fresh=reset_memo_caches, pre
         errors      list of (history names, exception repr) - an operation raised after a history although it does not raise alone
         nondeterministic  names of operations whose two solo runs differ (excluded from the comparison)
     `prefixes_only_from`: optional set of op names allowed in non-final positions (the rest are only ever the final call).
+    `mutators`: (name, fn) pairs of operations that are *specified* to change later answers (overwrite a component, append
+    a row).  They occur in non-final positions only; the reference for a sequence is then the last operation on a fresh state
+    to which just the mutators of the prefix were applied, in order - i.e. observations must leave no trace, and a mutation
+    must have the same effect whatever was observed before it.
     """
     names = [n for n, _ in ops]
     fns = dict(ops)
@@ -103,7 +107,9 @@ def explore(make, ops, depth, atol=1e-6, rtol=1e-6, fresh=reset_memo_caches, pre
             solo[n] = obs[0][1]
     out = {"sequences": 0, "calls": 0, "failures": [], "errors": [], "nondeterministic": nondet, "raises_alone": sorted(solo_err)}
     usable = [n for n in names if n in solo and n not in nondet]
-    inner = [n for n in usable if prefixes_only_from is None or n in prefixes_only_from]
+    mut = dict(mutators)
+    inner = [n for n in usable if prefixes_only_from is None or n in prefixes_only_from] + list(mut)
+    fns.update(mut)
     for d in range(2, depth + 1):
         for pre in itertools.product(inner, repeat=d - 1):
             for last in usable:
@@ -121,7 +127,18 @@ def explore(make, ops, depth, atol=1e-6, rtol=1e-6, fresh=reset_memo_caches, pre
                     out["sequences"] += 1
                     continue
                 out["sequences"] += 1
-                ok, why = same(got, solo[last], atol, rtol)
+                want = solo[last]
+                if any(n in mut for n in pre):
+                    if not any(n not in mut for n in pre):
+                        continue  # mutators only: this run IS the reference of the longer sequences
+                    fresh()
+                    st = make()
+                    for n in pre:
+                        if n in mut:
+                            fns[n](st)
+                    want = fns[last](st)
+                    out["calls"] += 1 + sum(1 for n in pre if n in mut)
+                ok, why = same(got, want, atol, rtol)
                 if not ok:
                     out["failures"].append((hist, why))
     out["sequences"] += len(usable)
